@@ -144,6 +144,16 @@ func setECS(
 	} else {
 		opt.SetUDPSize(dnsmsg.DefaultEDNSUDPSize)
 
+		// A message must not have more than one OPT record, see RFC 6891,
+		// section 6.1.1.  Remove all OPT records but the one that is used, so
+		// that no subnet supplied by the client in the others is left in the
+		// message.
+		msg.Extra = slices.DeleteFunc(msg.Extra, func(rr dns.RR) (del bool) {
+			other, ok := rr.(*dns.OPT)
+
+			return ok && other != opt
+		})
+
 		// Reuse the first ECS option and remove all others, if any, so that no
 		// subnet supplied by the client is left in the message.
 		found := false
